@@ -636,12 +636,12 @@ def falsifier_stage(ctx):
                                 jump=(i % 4 != 0)))
     if ctx.thorough():
         plan = [("relaxation", 2, 2500), ("dephasing", 2, 2500), ("depolarizing", 2, 2500), ("effective", 2, 2500),
-                ("leakage", 2, 2500), ("mixed", 2, 600), ("mixed", 3, 300), ("leakage", 3, 300), ("relaxation", 4, 300),
+                ("leakage", 2, 2500), ("mixed", 2, 500), ("mixed", 3, 300), ("leakage", 3, 300), ("relaxation", 4, 300),
                 ("effective", 3, 300)]
     else:
-        plan = [("mixed", 2, 800), ("leakage", 2, 800), ("effective", 3, 120)]
+        plan = [("mixed", 2, 600), ("leakage", 2, 600), ("effective", 3, 100)]
     for kind, n, M in plan:
-        stat.append(gen_case(ctx.rng, kind, n, M, coarse=(M >= 800)))
+        stat.append(gen_case(ctx.rng, kind, n, M, coarse=(M >= 600)))
     worst_det, njump_hist = {}, {}
     for c in det:
         r = det_case(ctx, c)
@@ -682,7 +682,7 @@ def run(ctx):
                 "dense H_eff evolution. (d) statistical: trajectory averages (python random seeded from ctx.rng) of "
                 "occupations at t = T/2 and T against the dense Lindblad reference; acceptance by the smaller of "
                 "Bernstein's bound with variance p(1-p) and the empirical Bernstein bound (Maurer-Pontil), Bonferroni "
-                "over all (case, time, atom) tests; n = 2 cases with >= 800 trajectories use 6 steps of 40 ns (one "
+                "over all (case, time, atom) tests; n = 2 cases with >= 600 trajectories use 6 steps of 40 ns (one "
                 "exact two-site exponential per step).")
     ctx.trusted_base += ["hand-written Model/McwfOps.v (validated by the two correspondences on every run)",
                          "python's random.choices / random.uniform are faithful samplers (the choice itself is not "
